@@ -681,6 +681,13 @@ int main(int argc, char** argv)
       if (mode == "replay") return do_replay();
       if (mode == "record") return do_record();
    }
+   catch (const std::logic_error& e) {
+      // the library throws logic errors, the harness run-time errors: one that arrives here escaped from a call of the library
+      // where the harness expected none -- recorded like a crash (a terminal event), not as a failure of the harness
+      std::cout.flush();
+      std::cerr << "exception of the library escaped: " << e.what() << "\n";
+      std::abort();
+   }
    catch (const std::exception& e) {
       std::cout << "HARNESS-ERROR " << e.what() << "\n";
       return 2;
